@@ -231,6 +231,14 @@ func (t *Trial) hook(site int) {
 
 var errLoad = errors.New("load failed")
 
+var cancelledCtx, expiredCtx = func() (context.Context, context.Context) {
+	c1, cancel := context.WithCancel(context.Background())
+	cancel()
+	c2, cancel2 := context.WithDeadline(context.Background(), time.Unix(1, 0))
+	_ = cancel2
+	return c1, c2
+}()
+
 // NewTrial builds the cache of a trial.
 func NewTrial(cfg TrialCfg) (*Trial, error) {
 	t := &Trial{Cfg: cfg, base: time.Now()}
@@ -416,8 +424,16 @@ func (t *Trial) worker(w int, rng *core.Rng, out *[]Rec) {
 			r.RV, r.ROk = c.Invalidate(r.Key)
 			r.Ret = t.now()
 		case KGet:
+			// the loader does not look at its context: a cancelled or expired one changes nothing
+			gctx := ctx
+			switch rng.Intn(8) {
+			case 0:
+				gctx = cancelledCtx
+			case 1:
+				gctx = expiredCtx
+			}
 			r.Call = t.now()
-			v, err := c.Get(ctx, r.Key, t.loader(&r))
+			v, err := c.Get(gctx, r.Key, t.loader(&r))
 			r.Ret = t.now()
 			r.RV, r.ROk = v, err == nil
 			if err != nil {
